@@ -24,8 +24,10 @@ Inductive hop :=
 | HTask (async : bool)                              (* RunTask (in a goroutine) / RunAsyncTask *)
 | HLimited (sem : nat) (wait : bool) (ctx : option nat)
 | HRelease (i : nat)                                (* let the body of task i return *)
+| HPanic (i : nat)                                  (* let the body of task i panic (Stopper built with OnPanic) *)
 | HWorker
 | HWRelease (w : nat)
+| HWPanic (w : nat)                                 (* let worker w's body panic *)
 | HAddCloser
 | HWithCancel (onq : bool)
 | HCancelFn (x : nat)
@@ -37,8 +39,10 @@ Definition op_label (o : hop) : label :=
   | HTask a => LCallTask (if a then KAsync else KSync)
   | HLimited sm w c => LCallTask (KLimited sm w c)
   | HRelease i => LBodyEnd i
+  | HPanic i => LBodyPanic i
   | HWorker => LWorkerStart
   | HWRelease w => LWorkerBodyEnd w
+  | HWPanic w => LWorkerBodyEnd w       (* stop.Done() is deferred: same path *)
   | HAddCloser => LAddCloser
   | HWithCancel q => LWithCancel q
   | HCancelFn x => LCancelFn x
@@ -226,12 +230,14 @@ Inductive ev :=
 | EStopRet (k : nat) (m : smp)
 | EQuiCall (k : nat)
 | EQuiRet (k : nat) (m : smp)
-| EObs (m : smp).                       (* a bystander's sample *)
+| EObs (m : smp)                        (* a bystander's sample *)
+| EIdle (upto : nat) (m : smp).         (* NumTasks() returned 0 at a moment after the first [upto]
+                                           events had been logged; m sampled after that *)
 
 Definition smp_of (e : ev) : option smp :=
   match e with
   | ERet _ _ m | EBegin _ m | EEnd _ m | EWStart _ m | EWEnd _ m | EAddCall _ m | EAddRet _ m
-  | EClose _ m | EStopRet _ m | EQuiRet _ m | EObs m => Some m
+  | EClose _ m | EStopRet _ m | EQuiRet _ m | EObs m | EIdle _ m => Some m
   | EStart _ _ | EStopCall _ | EQuiCall _ => None
   end.
 
@@ -474,12 +480,84 @@ Fixpoint ruleF (tbl : list (nat * nat)) (running inflight : list Z) (drained : b
 
 Definition zeros (n : nat) : list Z := repeat 0%Z n.
 
+(** ** G. "exactly": the slot does not stay taken once the task is over.
+    When NumTasks() = 0 was observed, every task that had ended before has
+    also run runPostlude, which comes after its [<-sem]; a call that returned
+    an error has given back whatever it took.  So the length of semaphore k
+    is at most the number of calls on k started so far, minus those that
+    returned an error, minus those whose body had ended before the
+    observation. *)
+Definition started_on (k : nat) (l : list ev) : list nat :=
+  flat_map (fun e => match e with
+                     | EStart i (Some k') => if k' =? k then [i] else []
+                     | _ => [] end) l.
+Definition err_ids (l : list ev) : list nat := refused_ids l.
+
+Definition may_hold (k : nat) (pre : list ev) (ended : list nat) : list nat :=
+  let errs := err_ids pre in
+  filter (fun i => negb (mem i errs) && negb (mem i ended)) (started_on k pre).
+
+Fixpoint ruleG_aux (nsems : nat) (all : list ev) (l : list ev) (p : nat) : bool :=
+  match l with
+  | [] => true
+  | e :: tl =>
+      match e with
+      | EIdle u m =>
+          let pre := firstn p all in
+          let ended := ended_ids (firstn u all) in
+          forallb (fun k => (nth k (sl m) 0%Z <=? Z.of_nat (length (may_hold k pre ended)))%Z) (seq 0 nsems)
+      | _ => true
+      end && ruleG_aux nsems all tl (S p)
+  end.
+Definition ruleG (nsems : nat) (l : list ev) : bool := ruleG_aux nsems l l 0.
+
+(** ** T. a further task is admitted: ErrThrottled is only justified if the
+    semaphore could have been full at some moment of the call, i.e. at least
+    [cap] other calls on it may have held a slot then: started before this
+    call returned, not returned with an error before this call started, and
+    not known to have released (ended before the last NumTasks() = 0
+    observation that precedes the start of this call). *)
+Fixpoint last_idle_upto (l : list ev) (acc : nat) : nat :=
+  match l with
+  | [] => acc
+  | EIdle u _ :: tl => last_idle_upto tl (Nat.max acc u)
+  | _ :: tl => last_idle_upto tl acc
+  end.
+
+Definition start_pos (i : nat) (l : list ev) : option nat :=
+  first_pos (fun e => match e with EStart j _ => j =? i | _ => false end) l.
+
+Fixpoint ruleT_aux (caps : list nat) (tbl : list (nat * nat)) (all : list ev) (l : list ev) (p : nat) : bool :=
+  match l with
+  | [] => true
+  | e :: tl =>
+      match e with
+      | EStart i (Some k) => ruleT_aux caps ((i, k) :: tbl) all tl (S p)
+      | ERet i RThrottled _ =>
+          match sem_lookup tbl i, start_pos i all with
+          | Some k, Some ps =>
+              let before_start := firstn ps all in
+              let ended := ended_ids (firstn (last_idle_upto before_start 0) all) in
+              let errs := err_ids before_start in
+              let others := filter (fun j => negb (j =? i) && negb (mem j errs) && negb (mem j ended))
+                                   (started_on k (firstn p all)) in
+              nth k caps 0 <=? length others
+          | _, _ => true
+          end && ruleT_aux caps tbl all tl (S p)
+      | _ => ruleT_aux caps tbl all tl (S p)
+      end
+  end.
+Definition ruleT (caps : list nat) (l : list ev) : bool := ruleT_aux caps [] l l 0.
+
 (** The code of the first rule the history breaks; 0 = the history is fine.
     1 refused task ran; 2 a task body at/after stop-channel close or Quiesce
     return; 3 accepted task never completed; 4 phase order in a sample;
     5 not stopped although Stop returned; 6 worker outlives stopped;
-    7 closers; 8 semaphore. *)
-Definition hist_code (nsems : nat) (l : list ev) : N :=
+    7 closers; 8 semaphore (a body running without a slot, or a slot still
+    taken after drain); 9 a slot still taken although no task is left
+    (NumTasks() = 0); 10 ErrThrottled although the semaphore had room. *)
+Definition hist_code (caps : list nat) (l : list ev) : N :=
+  let nsems := length caps in
   if negb (ruleA l) then 1%N
   else if negb (ruleB1 false l) then 2%N
   else if negb (ruleB2 l) then 3%N
@@ -488,16 +566,18 @@ Definition hist_code (nsems : nat) (l : list ev) : N :=
   else if negb (ruleE l) then 6%N
   else if negb (ruleD l) then 7%N
   else if negb (ruleF [] (zeros nsems) (zeros nsems) false l) then 8%N
+  else if negb (ruleG nsems l) then 9%N
+  else if negb (ruleT caps l) then 10%N
   else 0%N.
 
 (** * Cases *)
 Definition ctl_case := (list nat * list hop * list hobs * list ev)%type.   (* caps, ops, obs, events *)
-Definition free_case := (nat * list ev)%type.                               (* number of semaphores, events *)
+Definition free_case := (list nat * list ev)%type.                          (* capacities, events *)
 
 Definition ctl_model_bad (c : ctl_case) : bool :=
   let '(caps, ops, obs, _) := c in negb (run_ops (init caps) ops obs).
 Definition ctl_code (c : ctl_case) : N :=
-  let '(caps, _, _, evs) := c in hist_code (length caps) evs.
+  let '(caps, _, _, evs) := c in hist_code caps evs.
 Definition ctl_oracle_bad (c : ctl_case) : bool := negb (ctl_code c =? 0)%N.
 Definition free_code (c : free_case) : N := let '(n, evs) := c in hist_code n evs.
 Definition free_oracle_bad (c : free_case) : bool := negb (free_code c =? 0)%N.
